@@ -1061,7 +1061,11 @@ func (w *c12World) exec(i int, op *c12Op) {
 		x := w.exts[op.X]
 		v := w.value(op.V)
 		call = fmt.Sprintf("ext%d.values[%q] = %s", op.X, op.N, w.renderVal(v))
-		if v == nil {
+		if v == nil && i%2 == 1 {
+			// a lookup object may answer the zero reflect.Value without an error: that reads as nil too
+			call = fmt.Sprintf("ext%d.values[%q] = reflect.Value{}", op.X, op.N)
+			x.vals[op.N] = reflect.Value{}
+		} else if v == nil {
 			x.vals[op.N] = env.NilValue
 		} else {
 			x.vals[op.N] = reflect.ValueOf(v)
